@@ -667,7 +667,8 @@ def _fingerprint(t):
     for x in tm.walk(t):
         if x.op == "call":
             n = call_name(x)
-            if n:
+            if n and n.split(".")[-1] not in ("len", "asarray", "array", "float", "int", "abs", "absolute"):
+                # (how a size is taken - len(x), x.shape[0], x.size - and value-preserving wrappers are spellings, not identity)
                 names.add(n.split(".")[-1])
         elif x.op == "loop":
             names.add("loop")
